@@ -53,7 +53,7 @@ Definition set_sites : list site := [
   ((s "sharepoint2text/parsing/extractors/pdf/pdf_extractor.py"), (s "_TableExtractor._split_compound_words"), (1362)%Z, UMember);
   ((s "sharepoint2text/parsing/extractors/pdf/pdf_extractor.py"), (s "_TableExtractor._split_compound_words"), (1363)%Z, UMember);
   ((s "sharepoint2text/parsing/extractors/pdf/pdf_extractor.py"), (s "_TableExtractor.is_numeric_token"), (1262)%Z, UMember);
-  ((s "sharepoint2text/parsing/extractors/serialization.py"), (s "_deserialize_dataclass"), (195)%Z, UMember);
+  ((s "sharepoint2text/parsing/extractors/serialization.py"), (s "_deserialize_dataclass"), (196)%Z, UMember);
   ((s "sharepoint2text/parsing/extractors/util/omml_to_latex.py"), (s "<module>"), (157)%Z, UMember);
   ((s "sharepoint2text/parsing/extractors/util/zip_context.py"), (s "ZipContext.__init__"), (18)%Z, UMember);
   ((s "sharepoint2text/parsing/router.py"), (s "<module>"), (118)%Z, UMember);
